@@ -81,6 +81,7 @@ class KaniJob:
         self.macro_appends = []  # (relfile, macro_name, text)  inserted before the closing brace of the arm body
         self.macro_attr_inserts = []
         self.harnesses = []
+        self.lint_relax = []     # (relfile, lint): `#![forbid(lint)]` -> `#![cfg_attr(not(kani), forbid(lint))]` in the scratch copy
         self.extra_flags = []
         self.harness_timeout = harness_timeout or max(60, timeout - 120)
         self.scratch = None
@@ -102,6 +103,11 @@ class KaniJob:
 
     def append(self, relfile, text):
         self.appends.append((relfile, text))
+
+    def relax_lint(self, relfile, lint):
+        """Harness code may need what a crate-level `forbid` lint rejects (raw reads of a struct's words).  Lints are
+        not semantics: under cfg(kani) only, in the scratch copy only, the forbid is lifted.  Absent line: nothing to do."""
+        self.lint_relax.append((relfile, lint))
 
     def contract(self, relfile, target, trait, fn, attrs):
         self.attr_inserts.append((relfile, target, trait, fn, attrs))
@@ -159,6 +165,11 @@ class KaniJob:
         for (rel, text) in self.appends:
             with open(os.path.join(root, rel), "a") as f:
                 f.write(text)
+        for (rel, lint) in self.lint_relax:
+            p = os.path.join(root, rel)
+            src = open(p).read()
+            src = re.sub(r"#!\[forbid\(%s\)\]" % re.escape(lint), "#![cfg_attr(not(kani), forbid(%s))]" % lint, src)
+            open(p, "w").write(src)
 
     # -- running --------------------------------------------------------------------------
     def run(self):
